@@ -117,7 +117,7 @@ def _h0_case(draw, mode):
     return case
 
 
-OP_MODE_SETS = [[["b", "a"]], [["b", "a"], ["s", "s"]], [["f", "f"], ["f", "g"]], [["b", "a"], ["f", "f"]], [["l", "l"], ["s", "s"]], [["s", "s"], ["f", "f"]]]
+OP_MODE_SETS = [[["b", "a"]], [["b", "a"], ["b", "b"]], [["b", "a"], ["l", "l"]], [["b", "a"], ["s", "s"]], [["f", "f"], ["f", "g"]], [["b", "a"], ["f", "f"]], [["l", "l"], ["s", "s"]], [["s", "s"], ["f", "f"]]]
 
 
 @st.composite
